@@ -450,12 +450,18 @@ def run(tier, replay=None):
         "behaviours up to worker symmetry, TLC -simulate samples for two clients / two requests of one client / three "
         "workers; after every event the worker run states, every client's exact message sequence and every worker's "
         "received requests are compared with the spec. I->S: free-running random runs (1-4 workers, 1-3 clients, "
-        "1-2 requests each) accepted by Trace_MasterHub. distinct_nontrivial = distinct matched scenarios with at "
+        "1-2 requests each; load-state files of 10 shapes - well-formed, cut off after k records, damaged from the start, "
+        "empty, missing, refused records; the hub's loop parked now and then so that it finds several events in one poll "
+        "turn; one run in six with a deadline pending beside a load-state without deadline on a quiet socket) "
+        "accepted by Trace_MasterHub. S->I batches load_file_shapes (11 shapes x 6 behaviours x 2 workers) and "
+        "deadline_beside_no_deadline are exhaustive; answer + hang-up batches are performed with the loop parked "
+        "(one epoll event). distinct_nontrivial = distinct matched scenarios with at "
         "least one worker/timeout event (by event sequence) + accepted driver runs")
     rep.assumptions += [
         "worker_timeout = 1 s; a request without a final answer worker_timeout + 3 s after it was sent is a hang",
         "a client has one request outstanding per connection (answers carry no request id); stop verbs are only sent when nothing else is pending",
-        "S->I schedules are quiescent (the hub is idle before every event, checked with ListWorkers round trips); non-quiescent interleavings are covered by the I->S leg and by TLC on the spec",
+        "S->I schedules are quiescent (the hub is idle before every event, checked with ListWorkers round trips) except for a worker's hang-up right behind its own answer (performed with the hub's loop parked: one poll turn); other non-quiescent interleavings are covered by the I->S leg and by TLC on the spec",
+        "a damaged state-file record lies within load_state's first read buffer (200000 bytes)",
         "UpgradeMain/UpgradeWorker/ReloadConfiguration fan-outs are not driven (they fork processes / read a config file); ReloadConfiguration shares Timeout::None with LoadState",
     ]
     rep.finish()
